@@ -127,11 +127,20 @@ func c12GetSTH(r *Run) {
 	r.ExpectArg(ver, "GetSTH:verify.client", 0, "p0")
 	r.Check("GetSTH:verifies-converted-sth", sameResult(CallArgs(ver)[1], CallResult(conv, 0)), r.Where(ver), "the STH verified is the one ToSignedTreeHead produced: "+r.D.D(CallArgs(ver)[1]))
 	for _, ret := range yield {
-		r.Check("GetSTH:returns-verified-sth", sameResult(ret.Results[0], CallResult(conv, 0)) && errKind(ret.Results[1]) == "nil", r.Where(ret), "the STH returned is the one that was verified: "+r.D.D(ret.Results[0]))
+		// every STH this return can hand out is the verified one (merged with the nil of failure paths: that one or nothing)
+		same, n := true, 0
+		for _, leaf := range phiLeaves(ret.Results[0]) {
+			if isNilConst(leaf) {
+				continue
+			}
+			n++
+			same = same && sameResult(leaf, CallResult(conv, 0))
+		}
+		r.Check("GetSTH:returns-verified-sth", same && n > 0 && errKind(ret.Results[1]) == "nil", r.Where(ret), "the STH returned is the one that was verified: "+r.D.D(ret.Results[0]))
 	}
 	// ToSignedTreeHead
 	if tf := r.Fn("(*ct.GetSTHResponse).ToSignedTreeHead"); tf != nil {
-		r.FailEdge(tf, "ToSignedTreeHead", EdgeSpec{Name: "root-hash-not-32-bytes", Atom: ordAtomR("len(p0.SHA256RootHash)", "32"), Bad: "<,>", Want: wantErr(true), Unreach: asInstrs(CallsTo(tf, "copy"))})
+		r.FailEdge(tf, "ToSignedTreeHead", EdgeSpec{Name: "root-hash-not-32-bytes", Atom: ordAtomR("len(p0.SHA256RootHash)", "32"), Bad: "<,>", Want: wantErr(true), Unreach: append(asInstrs(CallsTo(tf, "copy")), sliceToArrayConvs(tf)...)})
 		r.FailEdge(tf, "ToSignedTreeHead", EdgeSpec{Name: "signature-undecodable", Atom: nilAtom("tls.Unmarshal(p0.TreeHeadSignature, *)#1"), Bad: "non", Want: wantErr(true)})
 		r.FailEdge(tf, "ToSignedTreeHead", EdgeSpec{Name: "signature-trailing-bytes", Atom: ordAtomR("len(tls.Unmarshal(p0.TreeHeadSignature, *)#0)", "0"), Bad: ">", Want: wantErr(true)})
 		for _, ret := range yieldingReturns(r, tf) {
@@ -147,6 +156,12 @@ func c12GetSTH(r *Run) {
 			// the signature field is what tls.Unmarshal decoded (through a local, or in place)
 			r.ExpectArg(um[0], "ToSignedTreeHead:signature.source", 0, "p0.TreeHeadSignature")
 			r.ExpectDecodedField(tf, "ToSignedTreeHead:signature.target", "ToSignedTreeHead:sth.TreeHeadSignature", ret.Results[0], "TreeHeadSignature", um[0], 1, "ct.DigitallySigned")
+			// the root hash of the STH holds the bytes of the response's root: copied into the array,
+			// or the array is set as a whole to the response's slice converted to an array
+			if len(CallsTo(tf, "copy")) == 0 && len(writesIntoField(tf, a, "SHA256RootHash")) > 0 {
+				c12ArrayFromSlice(r, tf, "ToSignedTreeHead:root-copy", a, "SHA256RootHash", "p0.SHA256RootHash")
+				continue
+			}
 			cp := r.OneCall(tf, "ToSignedTreeHead:root-copy", "copy")
 			if cp != nil {
 				r.ExpectArg(cp, "ToSignedTreeHead:root-copy.dst", 0, r.D.allocName(a)+".SHA256RootHash[:]")
@@ -154,6 +169,70 @@ func c12GetSTH(r *Run) {
 			}
 		}
 	}
+}
+
+// resultUnused: result i of the call is never looked at (discarded with _ or not bound at all).
+func resultUnused(c ssa.CallInstruction, i int) bool {
+	v := CallResult(c, i)
+	if v == nil {
+		return true
+	}
+	for _, ref := range *v.Referrers() {
+		if _, dbg := ref.(*ssa.DebugRef); !dbg {
+			return false
+		}
+	}
+	return true
+}
+
+// sliceToArrayConvs: the slice-to-array conversions of fn (`[N]T(s)`, `(*[N]T)(s)`): they panic when
+// the slice is shorter than the array and silently drop what is beyond it.
+func sliceToArrayConvs(fn *ssa.Function) []ssa.Instruction {
+	var out []ssa.Instruction
+	eachInstr(fn, func(in ssa.Instruction) {
+		if c, ok := in.(*ssa.SliceToArrayPointer); ok {
+			out = append(out, c)
+		}
+	})
+	return out
+}
+
+// c12ArrayFromSlice decides "the array field `field` of the struct built in the allocation a holds
+// the bytes of the slice srcGlob" for the form without copy: every write into the field is a store
+// of the whole field (at least one), the value stored is the slice srcGlob converted to an array (of
+// the field's type, by typing), and the struct is not overwritten as a whole afterwards. That the
+// conversion only runs with a slice of exactly the array's length is the length obligation's part
+// (the conversion is among the instructions that must not execute once the length test failed).
+func c12ArrayFromSlice(r *Run, fn *ssa.Function, key string, a *ssa.Alloc, field, srcGlob string) {
+	an := r.D.allocName(a)
+	for _, st := range writesIntoField(fn, a, field) {
+		whole := false
+		if fa, ok := st.Addr.(*ssa.FieldAddr); ok && fa.X == ssa.Value(a) {
+			whole = true
+		}
+		src := ""
+		val := st.Val
+		for {
+			ct, ok := val.(*ssa.ChangeType) // [N]byte ↔ a named array type
+			if !ok {
+				break
+			}
+			val = ct.X
+		}
+		if u, ok := val.(*ssa.UnOp); ok && u.Op == token.MUL {
+			if c, ok := u.X.(*ssa.SliceToArrayPointer); ok {
+				src = r.D.D(c.X)
+			}
+		}
+		r.Check(key+".dst", whole, r.Where(st), fmt.Sprintf("%s is set as a whole (%s)", an+"."+field, r.D.D(st.Addr)))
+		r.Check(key+".src", src != "" && anyGlob(srcGlob, src), r.Where(st), fmt.Sprintf("%s <- %s: expected the slice %s converted to an array (got a conversion of %q)", r.D.D(st.Addr), r.D.D(st.Val), srcGlob, src))
+		for _, st2 := range storesInto(fn, a) {
+			if st2.Addr == ssa.Value(a) && mayExecuteAfter(st2, st) {
+				r.Fail(key+".dst", r.Where(st2), fmt.Sprintf("the whole struct is overwritten after its %s field was set", field))
+			}
+		}
+	}
+	r.Pass(key, r.FnPos(fn), fmt.Sprintf("no copy: %s is filled by a slice-to-array conversion", an+"."+field))
 }
 
 // c12Configured: a client constructed with a public key has a verifier built from that
@@ -286,7 +365,12 @@ func c12AddChain(r *Run) {
 	rn := r.D.allocName(resp)
 	r.Gate(fn, "addChainWithRetry:post-failed", nil, nil, nilAtom(c12Retry+"(*)#2"), "non", yield, []ssa.Instruction{ver}, "the POST failed")
 	r.Gate(fn, "addChainWithRetry:signature-undecodable", nil, nil, nilAtom("tls.Unmarshal("+rn+".Signature, *)#1"), "non", yield, []ssa.Instruction{ver}, "DigitallySigned does not decode")
-	r.Gate(fn, "addChainWithRetry:signature-trailing-bytes", nil, nil, ordAtomR("len(tls.Unmarshal("+rn+".Signature, *)#0)", "0"), ">", yield, []ssa.Instruction{ver}, "bytes trail the DigitallySigned")
+	if um := CallsTo(fn, "tls.Unmarshal"); len(um) == 1 && glob(rn+".Signature", r.D.D(CallArgs(um[0])[0])) && resultUnused(um[0], 0) {
+		// the remainder is not even looked at: say so instead of "no branch condition tests …"
+		r.Fail("addChainWithRetry:signature-trailing-bytes", r.Where(um[0]), "bytes trail the DigitallySigned: the remainder returned by tls.Unmarshal("+rn+".Signature, …) is discarded, so a signature field holding a valid DigitallySigned followed by extra bytes is accepted and an SCT is returned for a response that is not what the server sent (no RspError)")
+	} else {
+		r.Gate(fn, "addChainWithRetry:signature-trailing-bytes", nil, nil, ordAtomR("len(tls.Unmarshal("+rn+".Signature, *)#0)", "0"), ">", yield, []ssa.Instruction{ver}, "bytes trail the DigitallySigned")
+	}
 	r.Gate(fn, "addChainWithRetry:extensions-not-base64", nil, nil, nilAtom("(*base64.Encoding).DecodeString(*"+rn+".Extensions)#1"), "non", yield, []ssa.Instruction{ver}, "extensions are not base64")
 	r.Gate(fn, "addChainWithRetry:signature-rejected", nil, nil, nilAtom("(*client.LogClient).VerifySCTSignature(*)"), "non", yield, nil, "the SCT signature does not verify")
 	// what is verified
@@ -301,7 +385,17 @@ func c12AddChain(r *Run) {
 		return
 	}
 	for _, ret := range yield {
-		r.Check("addChainWithRetry:returns-verified-sct", baseAlloc(ret.Results[0]) == sct && errKind(ret.Results[1]) == "nil", r.Where(ret), "the SCT returned is the object that was verified: "+r.D.D(ret.Results[0]))
+		// every SCT this return can hand out is the verified object (a result merged with the nil
+		// of the failure paths of a conversion step hands out that object or nothing)
+		same, n := true, 0
+		for _, leaf := range phiLeaves(ret.Results[0]) {
+			if isNilConst(leaf) {
+				continue
+			}
+			n++
+			same = same && baseAlloc(leaf) == sct
+		}
+		r.Check("addChainWithRetry:returns-verified-sct", same && n > 0 && errKind(ret.Results[1]) == "nil", r.Where(ret), "the SCT returned is the object that was verified: "+r.D.D(ret.Results[0]))
 	}
 	for _, st := range storesInto(fn, sct) {
 		f := strings.TrimSuffix(strings.TrimPrefix(r.D.D(st.Addr), "&("+r.D.allocName(sct)), ")")
